@@ -180,7 +180,7 @@ def run_kind(family, kind, timeout_ms=None, config=None):
     return out
 
 
-def cross_check(ob, timeout_s=20):
+def cross_check(ob, timeout_s=6):
     """thorough tier: every VC discharged by z3 is handed to cvc5 as SMT-LIB text; a `sat` there is an engine inconsistency"""
     import subprocess
     import tempfile
